@@ -80,6 +80,77 @@ pub fn r_pending(written: &[u8], p: &[u8]) -> bool {
     false
 }
 
+/// `p` is exactly one unfinished tag: '<' ['/'] letter ... without the '>' that ends it (a '>'
+/// inside a quoted attribute value does not end a tag).
+fn is_one_unfinished_tag(p: &[u8]) -> bool {
+    if p.first() != Some(&b'<') {
+        return false;
+    }
+    let mut i = 1;
+    if p.get(i) == Some(&b'/') {
+        i += 1;
+    }
+    if !p.get(i).is_some_and(|b| b.is_ascii_alphabetic()) {
+        return false;
+    }
+    #[derive(PartialEq)]
+    enum S {
+        Name,
+        Between,
+        Dq,
+        Sq,
+    }
+    let mut st = S::Name;
+    while i < p.len() {
+        let b = p[i];
+        match st {
+            S::Name | S::Between => match b {
+                b'>' => return false,
+                b'"' if st == S::Between && p[i - 1] == b'=' => st = S::Dq,
+                b'\'' if st == S::Between && p[i - 1] == b'=' => st = S::Sq,
+                _ if is_ws(b) || b == b'/' || b == b'=' => {
+                    // whitespace between '=' and the value keeps "before value"
+                    if st == S::Name {
+                        st = S::Between;
+                    }
+                }
+                _ => st = S::Between,
+            },
+            S::Dq => {
+                if b == b'"' {
+                    st = S::Between;
+                }
+            }
+            S::Sq => {
+                if b == b'\'' {
+                    st = S::Between;
+                }
+            }
+        }
+        i += 1;
+    }
+    true
+}
+
+/// `p` is one unfinished tag whose name is one the tree-builder simulation must see whole.
+fn whole_tag_needed(written: &[u8], p: &[u8]) -> bool {
+    if !is_one_unfinished_tag(p) {
+        return false;
+    }
+    let rest = &p[1..];
+    let rest = if rest.first() == Some(&b'/') { &rest[1..] } else { rest };
+    let name: Vec<u8> = rest.iter().take_while(|&&b| !is_ws(b) && b != b'/' && b != b'>').map(|b| b.to_ascii_lowercase()).collect();
+    if name.is_empty() || !name[0].is_ascii_alphabetic() {
+        return false;
+    }
+    const NEEDED: &[&[u8]] = &[b"foreignobject", b"desc", b"title", b"font", b"mi", b"mo", b"mn", b"ms", b"mtext"];
+    if NEEDED.contains(&name.as_slice()) {
+        return true;
+    }
+    let hashable = name.len() <= 12 && name.iter().all(|b| b.is_ascii_alphabetic() || (b'1'..=b'6').contains(b));
+    !hashable && contains_ci(written, b"<math")
+}
+
 pub struct Fresh {
     /// fresh[k] = sink length after a fresh rewriter got input[..k] in one write (k>=1)
     len: Vec<usize>,
@@ -124,22 +195,29 @@ fn check_a(p: &Prepared, input: &[u8], sched: &Sched, fresh: &Fresh) -> Option<S
     None
 }
 
-fn check_b(input: &[u8], k: usize, out_len: usize) -> Option<String> {
+fn check_b(input: &[u8], k: usize, out_len: usize, has_selectors: bool) -> Option<String> {
     if out_len == usize::MAX {
         return None;
     }
     let written = &input[..k];
-    // In foreign content the tree-builder simulation needs whole tags (self-closing flag,
-    // attributes of <font>/<annotation-xml>); the statement's tag-name bound is claimed for the
-    // HTML namespace only (DESIGN.md §4 C09).
-    if contains_ci(written, b"<svg") || contains_ci(written, b"<math") {
-        return None;
-    }
+    let foreign = contains_ci(written, b"<svg") || contains_ci(written, b"<math");
     if out_len > k {
         return Some(format!("sink has {out_len} bytes after only {k} were written (no handlers)"));
     }
     let pend = &written[out_len..];
     if !r_pending(written, pend) {
+        // In foreign content the tree-builder simulation needs some tags whole: the self-closing
+        // flag of integration-point elements, the attributes of <font> and <annotation-xml> (the
+        // latter is recognised by name only after lexing, so inside MathML every tag whose name
+        // cannot be hashed is lexed). Exactly those unfinished tags may be held back.
+        if foreign && whole_tag_needed(written, pend) {
+            return None;
+        }
+        // with a selector registered (even one that never matches) the matcher needs the
+        // self-closing flag of every foreign start tag: "at most the single unfinished token"
+        if foreign && has_selectors && pend.get(1).is_some_and(|b| b.is_ascii_alphabetic()) && is_one_unfinished_tag(pend) {
+            return None;
+        }
         return Some(format!(
             "after writing {:?} the rewriter (no capturing handlers) holds back {:?} ({} bytes), which is neither an unfinished tag start nor a look-ahead",
             lossy(written), lossy(pend), pend.len()
@@ -195,7 +273,7 @@ pub fn replay(case: &Value) -> Option<String> {
         }
         "B" => {
             let k = case["k"].as_u64()? as usize;
-            check_b(&input, k, fresh.len[k])
+            check_b(&input, k, fresh.len[k], !p.cfg.handlers.is_empty())
         }
         "C" => {
             let k = case["k"].as_u64()? as usize;
@@ -239,7 +317,7 @@ fn sweep(ctx: &Ctx, name: &str, space: Space, cfgs: &[(Prepared, Kind)], lv: Lev
                     ctx.outcomes.insert(digest(&input[ol.min(k)..k]));
                 }
                 let r = match kind {
-                    Kind::Passive => check_b(input, k, ol).map(|m| (m, "B")),
+                    Kind::Passive => check_b(input, k, ol, !p.cfg.handlers.is_empty()).map(|m| (m, "B")),
                     Kind::Observing => check_c(p, input, k, ol).map(|m| (m, "C")),
                 };
                 if *kind == Kind::Observing {
@@ -282,6 +360,7 @@ pub fn run_check(ctx: &Ctx) -> i32 {
         sweep(ctx, "B16<=4 x 6 configs x every prefix x L1,L2,LB,LE", Space::Bytes { max: 4 }, &cfgs, l12);
         sweep(ctx, "18 contexts x F<=2 x {none, everything} x every prefix x L1,LB", Space::CtxFrags { k, max: 2 }, &passive_only, l1);
         sweep(ctx, "18 contexts x B16<=3 x {none, everything} x every prefix x L1,LB", Space::CtxBytes { max: 3 }, &passive_only, l1);
+        sweep(ctx, "7 foreign contexts x 55 foreign tag fragments<=2 x 6 configs x every prefix x L1,LB", Space::Foreign { max: 2 }, &cfgs, l1);
     } else {
         let lall = Levels { l1: true, l2_max_len: 48, bytewise: true, empties: true };
         sweep(ctx, "F<=3 x 6 configs x every prefix x L1,L2,LB,LE", Space::Frags { k, max: 3 }, &cfgs, lall);
@@ -290,6 +369,7 @@ pub fn run_check(ctx: &Ctx) -> i32 {
         sweep(ctx, "B16<=6 x {none, everything} x every prefix x L1", Space::Bytes { max: 6 }, &passive_only, l1);
         sweep(ctx, "18 contexts x F<=3 x {none, everything} x every prefix x L1,LB", Space::CtxFrags { k, max: 3 }, &passive_only, l1);
         sweep(ctx, "18 contexts x B16<=4 x 6 configs x every prefix x L1,L2,LB", Space::CtxBytes { max: 4 }, &cfgs, lall);
+        sweep(ctx, "7 foreign contexts x 55 foreign tag fragments<=3 x 6 configs x every prefix x L1,LB", Space::Foreign { max: 3 }, &cfgs, l1);
     }
     ctx.finish(
         "model_checking",
